@@ -317,6 +317,55 @@ fn window_subset_scenarios(tier: Tier, oracles: Oracles) -> Vec<Scenario> {
     out
 }
 
+/// The same five-level tree: one transaction puts two absent keys (every ordered pair of the 61
+/// gaps between, below and above the stored keys; quick: ascending pairs only) - inserts that
+/// land in different subtrees of a deep tree within one transaction.
+fn window_put_pairs_scenarios(tier: Tier, oracles: Oracles) -> Vec<Scenario> {
+    const N: usize = 60;
+    const NESTED: [usize; 3] = [8, 27, 50];
+    let key = |i: usize| format!("w{:03}*295", 2 * i + 1);
+    let mut ops = vec![OpSpec::bucket("create", &[], "b")];
+    for i in 0..N {
+        if NESTED.contains(&i) {
+            ops.push(OpSpec::bucket("create", &["b"], &key(i)));
+            ops.push(OpSpec::put(&["b", &key(i)], "colour", "green"));
+        } else {
+            ops.push(OpSpec::put(&["b"], &key(i), "v"));
+        }
+    }
+    let setup = vec![tx(ops), Action::Reopen];
+    let gaps = N + 1;
+    let both_orders = tier == Tier::Thorough;
+    let n = if both_orders { gaps * gaps } else { gaps * (gaps - 1) / 2 };
+    let alpha = FnAlphabet {
+        n,
+        f: move |idx: usize| {
+            let (i, j) = if both_orders {
+                (idx / gaps, idx % gaps)
+            } else {
+                // idx-th pair i < j
+                let mut rest = idx;
+                let mut i = 0;
+                while rest >= gaps - 1 - i {
+                    rest -= gaps - 1 - i;
+                    i += 1;
+                }
+                (i, i + 1 + rest)
+            };
+            let gap = |g: usize| format!("w{:03}*295", 2 * g);
+            let mut ops = vec![OpSpec::put(&["b"], &gap(i), "first")];
+            if i != j {
+                ops.push(OpSpec::put(&["b"], &gap(j), "second"));
+            }
+            Action::Tx { ops, commit: true }
+        },
+    };
+    let mut sc = Scenario::new("put-pairs-5level", Cfg::default(), setup, Box::new(alpha), 1, oracles);
+    sc.oracles.probe_after_commit = None;
+    sc.oracles.probe_in_tx_end = None;
+    vec![sc]
+}
+
 /// Subset driver split over two transactions (deletes, then inserts), from every base.
 fn subset_split_scenarios(oracles: Oracles, nmax: usize) -> Vec<Scenario> {
     let mut out = vec![];
@@ -673,6 +722,7 @@ fn c01_like(tier: Tier, oracles: Oracles, with_drop: bool) -> Vec<Scenario> {
     if oracles.probe_each_op.is_none() {
         out.extend(window_subset_scenarios(tier, oracles));
     }
+    out.extend(window_put_pairs_scenarios(tier, oracles));
     if !q {
         out.extend(subset_split_scenarios(oracles, 12));
     } else {
